@@ -447,7 +447,13 @@ def run_obs(exes, part, cls, san, T, N, seed, workdir, tag, n_eff):
     else:
         evs = read_events(obsp)
         if len(evs) != T:
-            raise V.ToolFailure(f"{cls}: expected {T} obs events, got {len(evs)}")
+            # the process ended "normally" but threads did not deliver their results: the harness's terminate handler
+            # (an exception or a failed assertion inside a worker thread) ends the process with exit code 0 so that
+            # the trace is not truncated.  The sequential run of exactly these instances completed, so this is an
+            # observation about the concurrent run, not a tool failure.
+            msg = (r.stderr.strip().splitlines() or ["-"])[-1][:200].replace('"', "'")
+            evs = [{"op": "crash", "cls": cls, "part": part, "T": T, "N": n_eff, "san": san, "rc": 0,
+                    "msg": f"{len(evs)} of {T} threads delivered results; " + msg}]
     if os.path.exists(obsp):
         os.remove(obsp)
     if san == "tsan":
